@@ -72,7 +72,7 @@ CHECKS = {
               "and array: copies end with base_ at a block freshly obtained from the array's own allocator and reach element copies; moves adopt the "
               "source block, run no element operation and no allocation, and reset the source to the empty layout; on no normal path do two arrays own "
               "one block; copy / move assignment have an effect-free path under this == &other; type-level witnesses (decay / unary + own, nothrow "
-              "move, views not copy constructible). Breaking any of these breaks value semantics; equality of values along histories is not decided. R04.source: counted element copies / moves from a contiguous source (array, array_ref) read from exactly the source's element pointer."),
+              "move, views not copy constructible). Breaking any of these breaks value semantics; equality of values along histories is not decided. R04.source: counted element copies / moves from a contiguous source (array, array_ref) read from exactly the source's element pointer. R04.viewflat: no element primitive is handed the raw base pointer of a view operand (views have arbitrary strides and are traversed through elements() / iterators) unless the path establishes that memory order is the view's element order (D = 1 with unit stride, or layout == layout_type(extensions())); a control operation written in the driver keeps the rule armed."),
         design_ref="DESIGN.md 3/C04, 2.1", note=ANOTE,
         technique="path-sensitive abstract interpretation of -O0 LLVM IR (provenance / effect rules over event traces) + compile-time witnesses",
     ),
@@ -81,7 +81,7 @@ CHECKS = {
         text=("For every assignment-through-view form (view = view / array / moved view, swap of views, elements() = elements(), array_ref = array_ref, "
               "row = row, fill): no path writes base_ or the layout of any array or view, allocates, deallocates, constructs or destroys (cannot rebind, "
               "resize or reallocate); the normal path reaches an element-assignment primitive; source and destination are traversed by the same kind of "
-              "range. Plus rvalue-ness of element_moved / moved arrays at the type level. The extents assertion is C20."),
+              "range. Plus rvalue-ness of element_moved / moved arrays at the type level. The extents assertion is C20. R05.count: counted primitives cover exactly the destination's elements. R05.viewflat: as R04.viewflat, for assignment and swap through views."),
         design_ref="DESIGN.md 3/C05", note=ANOTE,
         technique="effect rules over abstract-interpretation event traces of -O0 LLVM IR + compile-time witnesses",
     ),
@@ -90,7 +90,7 @@ CHECKS = {
         text=("reextent (three overloads): effect-free early return on equal extents; on resizing paths allocate, construct ALL new elements, copy over "
               "intersection(this->extensions(), new extensions), then destroy / deallocate old and commit; clear() ends empty; reshape touches only "
               "the layout. intersection(range / extension_t / extensions_t<1,2>) is exact for ALL integers: evaluated in the polynomial domain under "
-              "every weak ordering of its four endpoints (exhaustive for a function that only compares). assign(first, last) keeps the storage only on paths guarded by equal count and, for D > 1, equal item extents; otherwise it rebuilds (R06.assign)."),
+              "every weak ordering of its four endpoints (exhaustive for a function that only compares). assign(first, last) keeps the storage only on paths guarded by equal count and, for D > 1, equal item extents; otherwise it rebuilds (R06.assign); the same for assignment from an initializer list."),
         design_ref="DESIGN.md 3/C06", note=ANOTE + " Engine L trusted base as for C01.",
         technique="order / effect rules over abstract-interpretation traces + order-type enumeration in the polynomial IR domain",
     ),
@@ -101,7 +101,7 @@ CHECKS = {
               "(7 operand mixes x D, element ranges, and the value layer - range, extensions_t, layout_t, iterators - down to integer comparisons); "
               "a <= b == (a < b or a == b); a > b == b < a; a >= b == b <= a; a == b compares extensions() of every dimension; the six operators "
               "exist for D = 1..3 (4 thorough) and array / view / reference mixes (type level); range == range is 'both empty or same endpoints' "
-              "for all integers (order-type enumeration)."),
+              "for all integers (order-type enumeration). R07.deep: a == b yields true only on paths that reach the element comparison or establish that both operands are the same view (base and complete layout)."),
         design_ref="DESIGN.md 3/C07", note=ANOTE + " Relations between operators that resolve to different equality implementations for the same operand types (array_ref's flat "
              "comparison vs the view comparison) are recorded as not comparable, not claimed. Not decided: the lexicographic order itself and transitivity over values.",
         technique="decision-tree extraction by abstract interpretation of -O0 LLVM IR; propositional relation check; compile-time witnesses; order types",
@@ -123,8 +123,8 @@ CHECKS = {
               "construction / assignment primitive) of every operation, following the IR's exception edges: every live array must satisfy INV (safe to "
               "destroy), a failed constructor must leave no block, no block may be unowned. Plus: no noexcept function invokes something that may "
               "throw; every construct-in-a-loop helper catches all, destroys the prefix and rethrows; operations that need no storage have no "
-              "allocation event. Covers every single injection point, which fault-injection tests only sample. 49 genuine defects of the pinned tree "
-              "(six root causes) are listed as known findings. The noexcept scan is repeated for an element type whose own members are noexcept while conversion from a second element type throws, over operations between operands of different element types."),
+              "allocation event. Covers every single injection point, which fault-injection tests only sample. 47 genuine defects of the pinned tree "
+              "(six root causes) are listed as known findings. The noexcept scan is repeated for an element type whose own members are noexcept while conversion from a second element type throws, over operations between operands of different element types. R09.noalloc includes assignment from a view, a const view or an array with another allocator when the extents are equal."),
         design_ref="DESIGN.md 3/C09, 6", note=ANOTE,
         technique="typestate analysis over exception edges (invoke / landingpad / resume) of -O0 LLVM IR",
     ),
@@ -147,7 +147,7 @@ CHECKS = {
               "dereference and pointer_traits but no conversion to or from T* / void* (positive control: a raw conversion does not compile). W11.types: "
               "element_ptr, element_const_ptr, data_elements(), base() of that instantiation are the fancy pointer types. R11.flow: in the unoptimised IR of "
               "the strict instantiation no raw element address obtained from the fancy pointer (operator*, operator->, operator[], addressof, to_address) "
-              "is the base of element address arithmetic inside the library's functions. R11.life: per driver operation, the allocator members (allocate, deallocate, construct, destroy) reachable in the call graph of the fancy-pointer instantiation equal those of the raw-pointer instantiation with the same allocator. O11.cast: C12's projection obligations that compile over a pointer without raw conversions, evaluated over that pointer (covers the three branches on std::is_pointer_v<ElementPtr>)."),
+              "is the base of element address arithmetic inside the library's functions, nor handed to a routine that walks raw memory (block moves / fills, counted or ranged standard algorithms over T*); decided for a non-trivial and for a trivially copyable element type. R11.life: per driver operation, the allocator members (allocate, deallocate, construct, destroy) reachable in the call graph of the fancy-pointer instantiation equal those of the raw-pointer instantiation with the same allocator. O11.cast: C12's projection obligations that compile over a pointer without raw conversions, evaluated over that pointer on sources with symbolic index bases (covers the three branches on std::is_pointer_v<ElementPtr>)."),
         design_ref="DESIGN.md 3/C11",
         note="Not decided: element-for-element equality with the raw-pointer run, and that a bounds-tracking pointer is never dereferenced outside its storage "
              "(run-time quantities). Projection casts (member_cast, reinterpret_array_cast) reinterpret the pointer object by design and are outside the "
@@ -159,8 +159,8 @@ CHECKS = {
         text=("Byte-address identities and extent preservation, as closed forms on an arbitrary symbolic source view (D<=2 quick, <=3 thorough): "
               "member_cast designates base + addr(i)*sizeof(T) + offsetof(member); reinterpret_array_cast<U>() keeps every address; "
               "reinterpret_array_cast<U>(n) adds a trailing dimension of size n over each element's bytes; static_array_cast, const_array_cast, "
-              "as_const keep layout and addresses; reference-returning element_transformed designates f's projection of the same element; "
-              "blas::real / imag / real_doubled; casts commute with rotated / sliced / strided (composition with the view algebra)."),
+              "as_const keep layout and addresses; reference-returning element_transformed (function pointer, pointer to data member, std::mem_fn) designates f's projection of the same element; "
+              "blas::real / imag / real_doubled; casts commute with rotated / sliced / strided (composition with the view algebra). O12.cast.based: the whole table again on sources with symbolic, non-zero index bases (found the defect repaired by b43e2e4: the layout rescaling dropped the index base)."),
         design_ref="DESIGN.md 3/C12",
         note=IRNOTE + " Struct layouts per x86-64 ABI. Not decided: values of f(element), the element-wise conversion loops of converting "
              "constructors (their extent provenance is R12.ctorext in the C08 fact base). real_doubled is only claimed for D=2 (its "
@@ -180,7 +180,7 @@ CHECKS = {
               "conjugated a, both fills and row- / column-major a and c: the zherk call updates the stated triangle of c with a a^H (G = a for C' = c, "
               "G = conj(a) for C' = c transposed); B13.syrk likewise for the real syrk. R13.conj: the in-place gemm wrapper with a conjugated output forwards conj(alpha), conj(beta) and "
               "conjugated operands. B13.l1: argument agreement (count, base, stride, conjugated operand "
-              "first in zdotc, the 1 x n zgemv form of dotu) of axpy, copy, swap, scal, dot, nrm2, asum, iamax. R13.forms: 183 sibling comparisons - each lazy-range / operator / convenience form and each result constructed or assigned as a 0-D array issues exactly the external BLAS call (routine, counts, operands, increments, scalars, result location) of the iterator-level form of the same operation."),
+              "first in zdotc, the 1 x n zgemv form of dotu) of axpy, copy, swap, scal, dot, nrm2, asum, iamax; block moves issued instead of a BLAS call are effects of the wrapper and are equivalent to the copy only for unit increments. R13.forms: 183 sibling comparisons - each lazy-range / operator / convenience form and each result constructed or assigned as a 0-D array issues exactly the external BLAS call (routine, counts, operands, increments, scalars, result location) of the iterator-level form of the same operation."),
         design_ref="DESIGN.md 3/C13",
         note=IRNOTE + " Decides the dispatch tables (a necessary condition of the numerical result), not numerical values, not the lazy gemm_range / "
              "operator forms' evaluation order, and not trsv / the lazy herk_range. "
@@ -192,7 +192,7 @@ CHECKS = {
         text=("The serialize members of array, static_array, array_ref, subarray and extensions_t (D = 1..2 quick, ..4 thorough) are interpreted on a symbolic archive "
               "whose every operation is an external event that may overwrite its operand (as loading does). R17.single: one serialize template per class serves both "
               "directions (no save / load split). R17.extfirst: the extents object is archived first, as first / last of every dimension. R17.resize: on the path where "
-              "the archived extents differ the array is cleared and re-extended to the archived extents object before any element item, on the equal path no storage "
+              "the archived extents differ the array is cleared and re-extended to the archived extents object (its layout written from them on every such path) before any element item, on the equal path no storage "
               "event happens. R17.elems: exactly one make_array(data_elements(), num_elements()) item over the base / layout the array has at that moment. "
               "R17.view: a view archives for_each over its own elements() range and the per-element action archives exactly the element it is given. W17.inst: serialize of every array / view kind (incl. const views, views over const elements, rows of const arrays) instantiates with an archive. R17.names: the per-element actions of all view classes pass the same item name."),
         design_ref="DESIGN.md 3/C17", note=ANOTE + " Trusted: the symbolic archive model in checks/c17.py. Not decided: encodings of concrete archives (text / binary / XML), "
@@ -206,7 +206,7 @@ CHECKS = {
               "(external events with opaque output handles) is interpreted in the type-map algebra of the MPI standard. M18.map: the (buffer, count, datatype) "
               "denotes, as a list of (count, byte stride) loop levels, exactly the view's canonical element order from its base. M18.life: every created "
               "datatype is freed exactly once, none is used after being freed, the datatype handed out is committed before and freed once after, predefined "
-              "datatypes are never freed. Ownership transfers of the committed datatype (message(buf, skeleton&&), skeleton(skeleton&&), std::move(skeleton).datatype()) are part of the lifecycle rule. Every stride is split into unit / non-unit (a unit stride is the natural special case of a type constructor; MPI_Type_contiguous is part of the algebra). M18.silent: in the assertion-enabled IR a message of an array without elements (null base, count 0) is built without reaching an assertion."),
+              "datatypes are never freed. Ownership transfers of the committed datatype (message(buf, skeleton&&), skeleton(skeleton&&), std::move(skeleton).datatype()) are part of the lifecycle rule. Every stride is split into unit / non-unit (a unit stride is the natural special case of a type constructor; MPI_Type_contiguous is part of the algebra; when the adaptor itself branches on the layout, concrete members of the case are compared). M18.silent: in the assertion-enabled IR a message of an array without elements (null base, count 0) is built without reaching an assertion."),
         design_ref="DESIGN.md 3/C18",
         note=IRNOTE + " Trusted: the type-map algebra of MPI-3.1 section 4.1 as encoded in checks/c18.py; Open MPI's mpi.h. Assumes positive strides and non-empty "
              "views. Not decided: what an MPI implementation does with the message (packing, transfer, receive into another layout).",
